@@ -278,6 +278,9 @@ type vfRouteScenario struct {
 	// WMAdvance: the first watermark-only batch after the last scripted batch carries a high watermark this much
 	// above the last batch's (the source's watermark advances without tasks for this cluster)
 	WMAdvance int64 `json:"wm_advance,omitempty"`
+	// LatePeers: the instances know each other's shards from the start, but the intra-proxy streams between them come
+	// up only on the action "peers" (a peer that is slow to connect)
+	LatePeers bool `json:"late_peers,omitempty"`
 }
 
 type vfTaskRec struct {
@@ -358,11 +361,14 @@ type vfInst struct {
 }
 
 type vfRouteExec struct {
-	sc           *vfRouteScenario
-	sm           *shardManagerImpl // instance 0's
-	inst         []*vfInst
-	intraN       int // intra-proxy streams opened so far
-	hmu          sync.Mutex
+	sc     *vfRouteScenario
+	sm     *shardManagerImpl // instance 0's
+	inst   []*vfInst
+	intraN int // intra-proxy streams opened so far
+	hmu    sync.Mutex
+	// cbmu serialises the environment's callbacks (they run on goroutines of the code under test, which run freely
+	// once the scheduler is detached); lmu protects the event log and the violation list
+	cbmu, lmu    sync.Mutex
 	regOps       []vfRegOp
 	handoff      []chan RoutedMessage
 	handoffEnded map[chan RoutedMessage]bool
@@ -380,6 +386,7 @@ type vfRouteExec struct {
 	faults       int
 	panics       []string
 	closing      bool
+	peersUp      bool // LatePeers scenarios: the intra-proxy streams may be established
 	// spawn starts a handler goroutine (plain go at the macro level, a managed goroutine at the micro level)
 	spawn func(name string, f func())
 	// changed is closed (and replaced) on every environment-visible event, for goroutines waiting on a condition
@@ -586,6 +593,9 @@ func (e *vfRouteExec) syncInstances(wait func()) {
 			}
 		}
 		wait()
+		if e.sc.LatePeers && !e.peersUp {
+			continue
+		}
 		for _, in := range e.inst {
 			in.sm.GetIntraProxyManager().ReconcilePeerStreams("")
 			wait()
@@ -732,6 +742,8 @@ func (e *vfRouteExec) strandedInEndedHandoff(tag string) bool {
 }
 
 func (e *vfRouteExec) logf(f string, a ...any) {
+	e.lmu.Lock()
+	defer e.lmu.Unlock()
 	e.events = append(e.events, fmt.Sprintf(f, a...))
 	if e.changed != nil {
 		close(e.changed)
@@ -740,6 +752,8 @@ func (e *vfRouteExec) logf(f string, a ...any) {
 }
 
 func (e *vfRouteExec) violate(prop, sig, detail string) {
+	e.lmu.Lock()
+	defer e.lmu.Unlock()
 	for _, v := range e.viol {
 		if v.Property == prop && v.Signature == sig {
 			return
@@ -751,6 +765,8 @@ func (e *vfRouteExec) violate(prop, sig, detail string) {
 // --- source side
 
 func (e *vfRouteExec) onSourcePullOpen(cs *vfClientStream) error {
+	e.cbmu.Lock()
+	defer e.cbmu.Unlock()
 	if cs.sv.ClusterID != vfSrcCluster || int(cs.sv.ShardID) < 1 || int(cs.sv.ShardID) > len(e.src) {
 		e.violate("C02", "pull-stream-bad-metadata", fmt.Sprintf("proxy opened a pull stream with metadata client=%v server=%v", cs.client, cs.sv))
 		return nil
@@ -910,6 +926,8 @@ func (e *vfRouteExec) watermark(s *vfSrc) {
 // onSourceAck is the C01/C03/C04 safety oracle, evaluated at every SyncReplicationState the
 // proxy sends towards a source shard.
 func (e *vfRouteExec) onSourceAck(s *vfSrc, inc int, a int64) {
+	e.cbmu.Lock()
+	defer e.cbmu.Unlock()
 	p := s.pulls[inc]
 	e.logf("S%d (pull #%d) receives ack %d", s.idx, inc, a)
 	// C03 safety
@@ -962,6 +980,28 @@ func (e *vfRouteExec) onSourceAck(s *vfSrc, inc int, a int64) {
 				kind = "live-target-has-not-confirmed"
 			}
 		}
+		if !ok && (kind == "unconfirmed-task-on-dead-target-stream" || kind == "task-lost-in-handoff-to-ended-target-stream") {
+			// which history let the acknowledgement pass: the owner shard came back and its next stream (a new sender, whose
+			// proxy ids start over) acknowledged something - or the owner has not acknowledged anything since, and the level
+			// moved for another reason
+			firstEnded := -1
+			for i, ts := range e.tgt[r.Tgt-1].incoming {
+				if ts.broken || ts.returned {
+					firstEnded = i
+					break
+				}
+			}
+			if len(ds) > 0 {
+				firstEnded = ds[len(ds)-1].Inc
+			}
+			sub := "owner-shard-has-not-acknowledged-since"
+			for i, ts := range e.tgt[r.Tgt-1].incoming {
+				if firstEnded >= 0 && i > firstEnded && len(ts.acks) > 0 {
+					sub = "acknowledged-by-the-owner-shards-next-stream"
+				}
+			}
+			kind += "/" + sub
+		}
 		if !ok {
 			e.violate(prop, "early-ack/"+kind, fmt.Sprintf("source %d received ack %d covering its task %d (owner: target shard %d) which no target stream has acknowledged [%s]; deliveries=%v",
 				s.idx, a, r.ID, r.Tgt, kind, ds))
@@ -972,6 +1012,8 @@ func (e *vfRouteExec) onSourceAck(s *vfSrc, inc int, a int64) {
 // --- target side
 
 func (e *vfRouteExec) onTargetSend(t *vfTgt, inc int, m *adminservice.StreamWorkflowReplicationMessagesResponse) {
+	e.cbmu.Lock()
+	defer e.cbmu.Unlock()
 	ts := t.incoming[inc]
 	msgs := m.GetMessages()
 	if msgs == nil {
@@ -1220,7 +1262,7 @@ func (e *vfRouteExec) openSource(s *vfSrc) {
 
 func (e *vfRouteExec) stateKey() string {
 	var sb strings.Builder
-	fmt.Fprintf(&sb, "t=%d f=%d|", e.now, e.faults)
+	fmt.Fprintf(&sb, "t=%d f=%d p=%v|", e.now, e.faults, e.peersUp)
 	for _, s := range e.src {
 		fmt.Fprintf(&sb, "S%d pos=%d/%v wm=%d high=%d in=%d[", s.idx, s.pos, s.script, s.wmUsed, s.curHigh, len(s.incoming))
 		for _, in := range s.incoming {
